@@ -8,7 +8,7 @@ Row clauses for a yielded row R of node n called with (sigma, f), m := R (+) sig
   R0 locality      dom R  subset  dom sigma  U  SubIds(n)
   R1 consistency   R and sigma agree where both are defined
   R2 legitimacy    good_row(n, m)      (variables in their domains, mapped entries related to their inputs)
-  R3 label         cond_pos(n)  ->  for every total rho extending m:  lbl == not Den(n, rho)
+  R3 label         cond_pos(n)  ->  for every total rho extending m with WD(n, rho):  lbl == not Den(n, rho)
   R4 filter        cond_pos(n) and not f  ->  not lbl
   R5 own value     is_value(n)  ->  nid(n) in dom R
 Stream clause
@@ -72,6 +72,13 @@ def good_hyps(st, n, b: Z.ZMap):
                 continue
             out.append(leaf_ext(n, a, n2, b2, b))
     return out
+
+
+def rely_growth(n, new: Z.ZMap, old: Z.ZMap, sig: Z.ZMap):
+    """what a consumer may do to a dict the producer n yielded: extend it consistently, and inside the producer's
+    subtree only with entries of the sigma the producer was called with."""
+    added_in_n = z3.Map(Z.AND_D, z3.Map(Z.AND_D, new.has, z3.Map(Z.NOT_D, old.has)), Z.SubIds(n))
+    return z3.And(new.extends(old), z3.Map(Z.IMP_D, added_in_n, sig.has) == TRUE_IDS, new.consistent_with(sig))
 
 
 def child_shape(n, c):
@@ -142,6 +149,7 @@ class EvalContract(LibModel):
                     st.ghost['sigma_ref'] = d.ref
                     st.assume(sig.is_empty() if case == 'empty' else z3.Not(sig.is_empty()))
                 st.ghost['sigma0'] = sig
+                st.ghost['sigma_now'] = sig
                 st.assume(*self.shape_facts(n))
                 st.assume(z3.Not(z3.Select(LeafIds, Z.nid(n))) if not self.is_leaf else z3.Select(LeafIds, Z.nid(n)))
                 st.assume(z3.Select(Z.SubIds(n), Z.nid(n)), z3.Select(Z.Sub(n), n), n != Z.NoneNode,
@@ -201,7 +209,7 @@ class EvalContract(LibModel):
                   Z.good_row(c, m),
                   z3.Implies(z3.And(Z.cond_pos(c), z3.Not(f)), z3.Not(lbl)),
                   z3.Implies(Z.is_value(c), R.contains(Z.nid(c))))
-        st.qf.append(lambda rho, m=m, c=c, lbl=lbl: z3.Implies(z3.And(Z.ext(rho, m), Z.cond_pos(c)),
+        st.qf.append(lambda rho, m=m, c=c, lbl=lbl: z3.Implies(z3.And(Z.ext(rho, m), Z.cond_pos(c), WD(c, rho)),
                                                                  lbl == z3.Not(Z.Den(c, rho))))
         for e in st.ghost.get('envs', []):
             st.assume(st.qf[-1](e))
@@ -212,7 +220,7 @@ class EvalContract(LibModel):
         """which dict objects that exist before the loop does one iteration mutate (through any alias)?
         Found by executing the body in scout mode (no obligations) until a fixpoint."""
         pre_refs = set(st.dicts.keys())
-        mutated = set()
+        mutated = {}
         for _ in range(4):
             h = self.havoc_for_loop(eng, st, body, callee=callee, extra_refs=mutated)
             h.ghost['mut'] = frozenset()
@@ -221,12 +229,14 @@ class EvalContract(LibModel):
                 outs = run_iteration(h)
             finally:
                 eng.scouting -= 1
-            new = set()
+            grew = False
             for o in outs:
-                new |= set(o.st.ghost.get('mut', ())) & pre_refs
-            if new <= mutated:
+                for (ref, kind) in o.st.ghost.get('mut', ()):
+                    if ref in pre_refs and kind not in mutated.get(ref, set()):
+                        mutated.setdefault(ref, set()).add(kind)
+                        grew = True
+            if not grew:
                 break
-            mutated |= new
         return mutated
 
     def havoc_for_loop(self, eng, st: State, body, callee=None, extra_refs=()) -> State:
@@ -237,7 +247,21 @@ class EvalContract(LibModel):
                 st.locals[nm] = self.fresh_like(eng, st, st.locals[nm], nm)
         # dicts mutated through names bound before the loop
         syn = self.mutated_dict_refs(eng, st, body)
-        for ref in extra_refs:
+        extra_refs = dict(extra_refs) if extra_refs else {}
+        sref = st.ghost.get('sigma_ref')
+        if sref is not None and 'rely' in extra_refs.get(sref, ()):
+            # the consumer may have consistently extended sigma itself (it was yielded): sigma_now grows
+            grown = Z.ZMap.fresh('sg')
+            st.assume(rely_growth(st.ghost['self'], grown, st.ghost['sigma_now'], st.ghost['sigma_now']))
+            st.ghost['sigma_now'] = grown
+        for ref, kinds in extra_refs.items():
+            if kinds == {'rely'} and ref not in syn:
+                new = Z.ZMap.fresh('rl')
+                if ref == sref:
+                    new = st.ghost['sigma_now']
+                st.assume(rely_growth(st.ghost['self'], new, st.dicts[ref], st.ghost['sigma_now']))
+                st.dicts[ref] = new
+                continue
             if ref not in syn:
                 syn[ref] = [('alias-mutation', None)]
         for ref, ops in syn.items():
@@ -311,8 +335,10 @@ class EvalContract(LibModel):
             return ZV(z3.FreshConst(v.t.sort(), 'h_' + nm), v.ty)
         if isinstance(v, D):
             return eng.new_dict(st, Z.ZMap.fresh('h_' + nm))
-        if isinstance(v, C):
-            return Obj('havocked', {'name': nm, 'was': v})
+        if isinstance(v, C) and isinstance(v.v, bool):
+            return ZV(z3.FreshConst(Z.B, 'h_' + nm), 'bool')
+        if isinstance(v, C) and isinstance(v.v, int):
+            return ZV(z3.FreshConst(Z.I, 'h_' + nm), 'int')
         return Obj('havocked', {'name': nm, 'was': v})
 
     def mutated_dict_refs(self, eng, st, body):
@@ -386,6 +412,10 @@ class EvalContract(LibModel):
                 # sigma as the callee sees it now (the caller may have consistently extended it: rely)
                 csig = b.dicts[sref] if sref is not None else sig
                 m = self.assume_row(b, c, csig, f, R)
+                if not alias:
+                    pr = dict(b.ghost.get('producer', {}))
+                    pr[row.ref] = (c, csig)
+                    b.ghost['producer'] = pr
                 if witness:
                     b.assume(Z.ext(rho, m))
                 if not eng.feasible(b):
@@ -395,11 +425,23 @@ class EvalContract(LibModel):
             return res
 
         outs = []
+        hyp_of = lambda r: z3.And(Z.ext(r, sig), WD(c, r), z3.Implies(Z.cond_pos(c), z3.Or(Z.Den(c, r), f)))
         if eng.mode == 'sound':
             mutated = self.scout_mutations(eng, st, body, iteration, callee=c)
+            inv0 = self.loop_invariant(eng, st, ordinal, z3.BoolVal(False))
+            if inv0 is not None:
+                eng.oblige(st, f"inv@loop{ordinal}/init", inv0, line=node.lineno)
             h = self.havoc_for_loop(eng, st, body, callee=c, extra_refs=mutated)
-            for o in iteration(h):
+            itd = z3.FreshConst(Z.B, f'iterated{ordinal}')
+            hi = h.clone()
+            invh = self.loop_invariant(eng, hi, ordinal, itd)
+            if invh is not None:
+                hi.assume(invh)
+            for o in iteration(hi):
                 if o.sig in (NEXT, CONTINUE):
+                    invn = self.loop_invariant(eng, o.st, ordinal, z3.BoolVal(True))
+                    if invn is not None:
+                        eng.oblige(o.st, f"inv@loop{ordinal}/preserved", invn, line=node.lineno)
                     self.on_iteration_end(eng, o.st, ordinal)
                 elif o.sig == BREAK:
                     outs.append(Outcome(o.st))
@@ -407,6 +449,12 @@ class EvalContract(LibModel):
                     outs.append(o)
             e = h.clone()
             e.path.append(f"loop{ordinal}:done")
+            inve = self.loop_invariant(eng, e, ordinal, itd)
+            if inve is not None:
+                e.assume(inve)
+            # an exhausted stream that delivered no row: by the callee's completeness clause no environment
+            # satisfies its hypothesis
+            e.qf.append(lambda r, itd=itd: z3.Implies(z3.Not(itd), z3.Not(hyp_of(r))))
             self.on_loop_exhausted(eng, e, ordinal, stream)
             outs.append(Outcome(e))
             return outs
@@ -433,6 +481,15 @@ class EvalContract(LibModel):
                     outs.append(o)
         return outs
 
+    def on_dict_mutation(self, eng, st, ref, old, new, node):
+        """we are the consumer of a row some callee yielded: stay within the rely of the interface."""
+        prod = st.ghost.get('producer', {}).get(ref)
+        if prod is None:
+            return
+        c, csig = prod
+        eng.oblige(st, f"rely@L{getattr(node, 'lineno', 0)}", rely_growth(c, new, old, csig),
+                   line=getattr(node, 'lineno', 0))
+
     def is_covered(self, eng, st):
         cov = st.ghost.get('covered')
         if cov is None or eng.scouting:
@@ -441,6 +498,23 @@ class EvalContract(LibModel):
 
     def on_iteration_end(self, eng, st, ordinal):
         pass
+
+    def loop_invariant(self, eng, st, ordinal, iterated):
+        """contract supplied invariant of loop `ordinal` (z3 Bool over the state) or None; `iterated` is the ghost
+        'at least one iteration has completed'."""
+        return None
+
+    # ---- duplicate suppression (SymbolicExpression._is_duplicate_output_, proved separately against SeenSet)
+    def node__is_duplicate_output_(self, eng, st, recv, args, kwargs, node):
+        (o,) = args
+        d = z3.FreshConst(Z.B, 'dup')
+        if eng.mode == 'witness' and isinstance(o, D):
+            # C1's alternative: a row covering rho_t that is suppressed as a duplicate means an earlier yielded row
+            # agreed with it on the variables the ancestors require
+            m = st.dicts[o.ref].merge(st.ghost['sigma_now'])
+            st = st.clone()
+            st.ghost['covered'] = z3.Or(st.ghost['covered'], z3.And(d, Z.ext(st.ghost['rho_t'], m)))
+        return [(st, ZV(d, 'bool'))]
 
     def on_loop_exhausted(self, eng, st, ordinal, stream):
         pass
@@ -513,7 +587,7 @@ class EvalContract(LibModel):
             raise OutOfSubset(f"yield of {v}", node)
         n = st.ghost['self']
         f = st.ghost['ywf_arg']
-        sig = st.ghost['sigma0']
+        sig = st.ghost['sigma_now']
         row = st.dicts[v.ref]
         m = row.merge(sig)
         lbl = z3.Select(st.fields['is_false'], n)
@@ -526,7 +600,8 @@ class EvalContract(LibModel):
             eng.oblige(st, f"{tag}/R2-legit.own", self.good(n, m), hyp=[Z.good_row(c, m) for c in self.children(n)],
                        line=node.lineno)
             rho = z3.FreshConst(Z.Env, 'rho')
-            eng.oblige(st, f"{tag}/R3-label", lbl == z3.Not(self.den(n, rho)), hyp=[Z.ext(rho, m), Z.cond_pos(n)],
+            eng.oblige(st, f"{tag}/R3-label", lbl == z3.Not(self.den(n, rho)),
+                       hyp=[Z.ext(rho, m), Z.cond_pos(n), WD(n, rho)],
                        envs=[rho], line=node.lineno)
             eng.oblige(st, f"{tag}/R4-filter", z3.Implies(z3.And(Z.cond_pos(n), z3.Not(f)), z3.Not(lbl)), line=node.lineno)
             eng.oblige(st, f"{tag}/R5-own-id", z3.Implies(Z.is_value(n), row.contains(Z.nid(n))), line=node.lineno)
@@ -538,9 +613,11 @@ class EvalContract(LibModel):
         # resume: the consumer may have consistently extended the yielded dict (rely)
         st = st.clone()
         new = Z.ZMap.fresh('res')
-        st.assume(new.extends(row))
+        st.assume(rely_growth(n, new, row, sig))
         st.dicts[v.ref] = new
-        st.log_mut(v.ref)
+        st.log_mut(v.ref, 'rely')
+        if v.ref == st.ghost.get('sigma_ref'):
+            st.ghost['sigma_now'] = new
         return [st]
 
     def extra_yield_obligations(self, eng, st, v, ordinal, node):
@@ -559,6 +636,20 @@ class EvalContract(LibModel):
         else:
             if o.sig == RAISE:
                 self.on_raise(eng, o)
+
+    def signature(self, ob, model):
+        """semantic fingerprint of a counter-model (used to match known findings; no path / line information)."""
+        n = z3.Const('self', Z.Node)
+
+        def ev(t):
+            return str(model.eval(t, model_completion=True))
+        sig = {'cond_pos(self)': ev(Z.cond_pos(n)), 'ywf': ev(z3.Bool('ywf_arg'))}
+        if '[witness]' in ob.name:
+            rho = z3.Const('rho_t', Z.Env)
+            sig['Den(self,rho_t)'] = ev(Z.Den(n, rho))
+            sig['truthy(own value)'] = ev(Z.truthy(Z.hv_value(z3.Select(rho, Z.nid(n)))))
+            sig['invert'] = ev(Z.inv(n))
+        return sig
 
     def on_raise(self, eng, o):
         eng.oblige(o.st, f"exit/raise:{o.val.v.name if isinstance(o.val, C) and isinstance(o.val.v, Ref) else o.val}",
